@@ -36,7 +36,7 @@ class C10(Prop):
     assumptions = ["ln accurate to a few ulp (checked per table entry against 50-digit decimal arithmetic)"]
 
     def gen(self, tier, rng):
-        reps = 40 if tier == "quick" else 400
+        reps = 40 if tier == "quick" else 2000
         for rep in range(reps):
             et = "f64" if rep % 3 else "f32"
             nd = rng.range(1, 3)
